@@ -453,6 +453,21 @@ class PredEval:
 
     def call(self, tm, env, depth):
         fn = T.refname(tm[1])
+        # "annotated somewhere along its bases": any(vars(b).get("__annotations__") for b in X.__mro__) (or b.__dict__ ...)
+        if fn == "builtins.any" and len(tm[2]) == 1 and tm[2][0][0] == "comp" and len(tm[2][0][3]) == 1:
+            comp = tm[2][0]
+            src = comp[3][0][0]
+            mro_of = src[1] if src[0] == "attr" and src[2] == "__mro__" else (src[1][1] if src[0] == "call" and src[1][0] == "attr" and src[1][2] == "mro" and not src[2] else None)
+            if mro_of is not None and not comp[4] and T.contains(comp[2], lambda y: y == ("const", "__annotations__") or (y[0] == "attr" and y[2] == "__annotations__")):
+                a = self.val(mro_of, env, depth)
+                if isinstance(a, TypeArg) and not a.subscripted:
+                    if a.flags:
+                        return "annotated" in a.flags
+                    try:
+                        return any(vars(b).get("__annotations__") for b in oracle.stdlib_class(a.cls).__mro__)
+                    except Exception:
+                        return None
+                return None
         args = [self.val(a, env, depth) for a in tm[2]]
         safe = fn in self.prog.safe_subclass_helpers()
         if fn in ("builtins.issubclass", f"{INSP}.cached_issubclass") or safe:
@@ -735,6 +750,8 @@ def leaf_test_agreement(prog: Program, rep, rule: str):
         TypeArg("typing.Any"),
         TypeArg("builtins.object"),
         TypeArg("builtins.Ellipsis"),
+        TypeArg("re.Match"),
+        TypeArg("re.Match", True, ("builtins.str",)),  # the spelling type checkers ask for (also what typing.Match[str] is)
     ]
     documented = {"collections.abc.Callable", "typing.Callable", "typing.Any", "builtins.object", "builtins.type", "builtins.Ellipsis", "types.EllipsisType", "re.Match", "typing.TypeVar"}
     for a in catalogue():
